@@ -169,7 +169,10 @@ def variant_options(rng, dflt, build):
     """configuration that the footprints must not depend on / value kinds / ways of asking"""
     o = {}
     if rng.random() < 0.25:
-        o["vkind"] = rng.choice(["float", "fdflt", "str"] + (["bool"] if dflt == 0 else []))
+        o["vkind"] = rng.choice(["float", "fdflt", "str"] + (["bool"] if dflt == 0 else []) +
+                                (["none", "none"] if build != "mutable" else []))
+    if build in ("fromFiber", "fromFiber+shape") and rng.random() < 0.25:
+        o["unordered"] = rng.randrange(1, 1000)
     if build in ("fromFiber", "fromFiber+shape"):
         if rng.random() < 0.25:
             o["fattrs_fmt"] = "U"
@@ -298,6 +301,33 @@ def gen(seed, tier):
             for o in ({"fdefault": 0}, {"vkind": "fdflt"}, {"vkind": "float"}):
                 yield {"prop": PROP, "D": 2, "dflt": 7, "t": tree, "build": "fromFiber+shape", "shape": [3, 3],
                        "tfmt": None, "opt": o, "spec": weighted_spec(2, fmts), "points": all_points(2, [0, 1, 2])}
+    # ---- leaf default None ("no empty value"): stored zeros are values; Tensor.makePopulated ----
+    for ti, tree in enumerate(base22):
+        for fi, fmts in enumerate(["CC", "CU", "UC", "UU"]):
+            build = ["fromFiber", "fromFiber+shape", "fromUncompressed"][(ti + fi) % 3]
+            yield {"prop": PROP, "D": 2, "dflt": 0, "t": tree, "build": build,
+                   "shape": None if build == "fromFiber" else [3, 3], "tfmt": None, "opt": {"vkind": "none"},
+                   "spec": weighted_spec(2, fmts), "points": all_points(2, [0, 1, 2]),
+                   "muts": [[["ref", [ti % 3], None]], [["setroot", base22[(ti + 3) % len(base22)]]]] if fi == 0 else None}
+    for D in (1, 2, 3):
+        for shape in itertools.product([1, 2, 3] if D < 3 else [1, 2], repeat=D):
+            for fmts in itertools.product("CU", repeat=D):
+                for initial, mpd in ((0, "omit"), (5, "omit"), (0, 0), (0, 7), (7, 7)):
+                    yield {"prop": PROP, "D": D, "dflt": 0, "t": [], "build": "makePopulated", "shape": list(shape),
+                           "initial": initial, "mp_default": mpd, "tfmt": None, "spec": weighted_spec(D, fmts),
+                           "points": all_points(D, [0, 1, 2] if D < 3 else [0, 1])}
+    # ---- unordered fibers (ordered=False, elements stored in a shuffled order) ----
+    unord = base22 + [t for i, t in enumerate(all_trees(2, 3)) if i % 197 == 5]
+    for ti, tree in enumerate(unord):
+        for fi, fmts in enumerate(["CC", "CU", "UC", "UU"]):
+            n = 1 + max([0] + max_coords(tree, 2))
+            for useed in (1, 2):
+                build = ["fromFiber", "fromFiber+shape"][(ti + fi + useed) % 2]
+                yield {"prop": PROP, "D": 2, "dflt": 0, "t": tree, "build": build,
+                       "shape": [n, n] if build == "fromFiber+shape" else None, "tfmt": None,
+                       "opt": {"unordered": useed}, "spec": weighted_spec(2, fmts),
+                       "points": all_points(2, list(range(n + 1))),
+                       "muts": [[["ref", [(ti + fi) % (n + 1), useed % n], 5]]] if build == "fromFiber+shape" and fi % 2 else None}
     # ---- tensors derived by a transform: splitUniform (one more rank), swizzleRanks ----
     pts3 = all_points(3, [0, 1, 2, 3])
     for ti, tree in enumerate(base22):
@@ -333,7 +363,7 @@ def gen(seed, tier):
                    "tfmt": [rng.choice([None, "C", "U"]) for _ in range(3)],
                    "spec": weighted_spec(3, fmts), "points": all_points(3, [0, 1, 2])}
     # ---- seeded random ----
-    nrand = 9000 if quick else 60000
+    nrand = 7000 if quick else 60000
     for i in range(nrand):
         D = rng.choice([1, 2, 2, 3, 3] * 4 + [4])
         n = rng.choice([2, 3]) if D == 4 else rng.choice([2, 3, 4, 6]) if D == 3 else rng.choice([2, 3, 5, 8, 12])
@@ -385,6 +415,10 @@ def gen(seed, tier):
                         path = [rng.randrange(0, n + 1) for _ in range(L)]
                         batch.append(["ref", path, rng.choice(pool) if L == D and rng.random() < 0.8 else None])
                 muts.append(batch)
+            if opt and opt.get("vkind") == "none":
+                # a leaf cannot be created by reference when there is no default value to create it with
+                muts = [[op for op in b if op[0] == "setroot" or len(op[1]) < D] for b in muts]
+                muts = [b for b in muts if b] or None
         yield {"prop": PROP, "D": D, "dflt": dflt, "t": tree, "build": build, "shape": shape, "tfmt": tf,
                "tfmt_first": rng.random() < 0.5, "muts": muts, "opt": opt,
                "spec": spec, "points": sample_points(rng, D, tree, n) + mut_points(muts),
@@ -447,6 +481,8 @@ def tensor_default(case):
     o = case.get("opt") or {}
     if o.get("vkind") == "fdflt":
         return 0.5 if case["dflt"] == 0 else 7.0
+    if o.get("vkind") == "none":    # "no empty value": what Tensor.makePopulated uses
+        return None
     return case["dflt"]
 
 
@@ -467,6 +503,8 @@ def leaf_value(case, v):
         return bool(v)
     if kind == "str":
         return v if v == d else "v%d" % v
+    if kind == "none":      # every stored int (zeros included) is a value
+        return v
     raise ValueError(kind)
 
 
@@ -478,6 +516,11 @@ def _build_fiber(case, tree, depth, level=0):
     kw = {"default": o["fdefault"] if "fdefault" in o else tensor_default(case)}
     if o.get("fshape"):
         kw["shape"] = o["fshape"][level]
+    if o.get("unordered"):
+        # fibers created with ordered=False keep insertion order: store the elements shuffled
+        tree = list(tree)
+        random.Random(o["unordered"] * 7919 + level * 31 + len(tree) + sum(c for c, _ in tree)).shuffle(tree)
+        kw["ordered"] = False
     if depth == 1:
         f = F([c for c, _ in tree], [leaf_value(case, v) for _, v in tree], **kw)
     else:
@@ -512,6 +555,9 @@ def build_tensor(case):
             if v is not None:
                 ref <<= leaf_value(case, v)
         return t
+    if build == "makePopulated":
+        kw = {} if case.get("mp_default", "omit") == "omit" else {"default": case["mp_default"]}
+        return ft.Tensor.makePopulated(ids, shape, initial=case.get("initial", 0), **kw)
     if build in ("split", "swizzle", "flatten"):
         # tensors derived by a transform (the result is what is measured; formats carry over)
         bd = {"split": D - 1, "swizzle": D, "flatten": D + 1}[build]
@@ -569,13 +615,16 @@ def _canon(x, dflt):
     return 0 if x == dflt else 1
 
 
-def _observe_state(t, ids, side, canon=None):
+NOCANON = object()
+
+
+def _observe_state(t, ids, side, canon=NOCANON):
     """abstraction function: the tensor as it is now"""
     root = t.getRoot()
     by_level = {}
     id2path = dict(_walk_ids(root, [], 0, by_level))
     state = H.snapshot(root)
-    if canon is not None:
+    if canon is not NOCANON:
         state = _canon(state, canon)
     ph = {"state": state, "shape": t.getShape(), "tformat": [t.getFormat(r) for r in ids]}
     ph["ranklists"] = [[[id2path.get(id(f)), len(f.coords)] for f in r.getFibers()] for r in t.ranks]
@@ -650,14 +699,18 @@ def run(case):
         for p in t.getRoot().payloads:
             if isinstance(p, H.ft().Fiber):
                 p.setActive((lo, hi))
-    canon = tensor_default(case) if opt.get("vkind") else None
+    canon = NOCANON
+    if opt.get("vkind"):
+        canon = tensor_default(case)
+    elif case["build"] == "makePopulated":
+        canon = H.ft().Payload.get(t.getDefault())
     if any(not isinstance(r, str) for r in ids):
         # a rank id that cannot be a dictionary key (flattened ranks): the state is still observed
         ids_key = None
     else:
         ids_key = ids
     impl = _observe_state(t, ids, side, canon)
-    if canon is not None:
+    if canon is not NOCANON:
         impl["dflt"] = 0
     spec = {}
     if case["spec"]["root"] is not None:
@@ -698,12 +751,12 @@ def run(case):
                 _query(fmt, t, ids, case["points"], ph, side, opt)
                 phases.append(ph)
             impl = {"outcome": "ok", "filled": impl["filled"], "phases": phases}
-            if canon is not None:
+            if canon is not NOCANON:
                 impl["dflt"] = 0
         # the queries leave the (filled) specification alone
         side["spec_unchanged_by_queries"] = impl["filled"] == {
             "root": _from_py(fmt.spec["root"]), "ranks": [_from_py(fmt.spec[r]) for r in ids]}
-        side["tensor_attrs_unchanged"] = ids == t.getRankIds() and (canon if canon is not None else case["dflt"]) == H.ft().Payload.get(t.getDefault())
+        side["tensor_attrs_unchanged"] = ids == t.getRankIds() and (canon if canon is not NOCANON else case["dflt"]) == H.ft().Payload.get(t.getDefault())
     except Exception as e:  # a crash on a legal input is an observation
         impl["outcome"] = H.err_class(e)
         side["no_exception:" + H.err_class(e)] = False
